@@ -50,7 +50,7 @@ Inductive try_result (s : pubstate) (n off req len : Z) (toolong : bool) : pubst
     ps_log s' = rotated (bumped (ps_log s) n off req) n -> ps_closed s' = false -> ps_claim s' = ps_claim s ->
     try_result s n off req len toolong (s', Err AdminAction)
 | TR_last s' : toolong = false -> ps_closed s = false -> n * l_tlen (ps_log s) + off < l_limit (ps_log s) ->
-    l_tlen (ps_log s) < off + req -> n = two31 - 1 ->
+    l_tlen (ps_log s) < off + req -> two31 - 1 <= n ->
     ps_log s' = bumped (ps_log s) n off req -> ps_closed s' = false -> ps_claim s' = ps_claim s ->
     try_result s n off req len toolong (s', Err MaxPositionExceeded).
 
